@@ -1007,3 +1007,140 @@ pub fn check_take_drop(obs: &Observation) -> V {
     }
     out
 }
+
+// ------------------------------------------------------------------------------------------
+// C05: persisted state is never older than what was published; restart restores it
+// ------------------------------------------------------------------------------------------
+
+pub fn check_c05(obs: &Observation) -> V {
+    use crate::store::StoreCall;
+    let mut out: V = vec![];
+    let mut add = |sig: String, expl: String| {
+        if !out.iter().any(|(s, _)| *s == sig) {
+            out.push((sig, expl));
+        }
+    };
+    let Some(log) = &obs.store_log else { return out };
+    let calls = log.calls.lock().clone();
+    let state = log.state.lock();
+    let id_of = |name: &str| state.ids.get(name).cloned();
+    let start1 = obs.truth.iter().find_map(|(_, t)| if let Truth::Start { v, w, t, vs, m, ms } = t { Some((*v, *w, *t, *vs, m.clone(), ms.clone())) } else { None });
+    // (1) publish only after persist
+    for (ri, r) in obs.remotes.iter().enumerate() {
+        for f in r.frames.iter().filter(|f| f.kind == FrameKind::Event) {
+            let b = body_str(f);
+            match f.lane.as_str() {
+                "v" | "w" => {
+                    let init = start1.as_ref().map(|s| if f.lane == "v" { s.0 } else { s.1 }).unwrap_or(0);
+                    if b.parse::<i32>().ok() == Some(init) {
+                        continue;
+                    }
+                    let Some(id) = id_of(&f.lane) else {
+                        add("as: value published but the lane has no store id".into(), format!("lane {}", f.lane));
+                        continue;
+                    };
+                    let ok = calls.iter().any(|(s, inst, c)| *inst == 1 && *s <= f.step && matches!(c, StoreCall::Put(i, bytes) if *i == id && bytes.as_slice() == b.as_bytes()));
+                    if !ok {
+                        add(
+                            "as: value lane state published to a subscriber before it was handed to the store".into(),
+                            format!("remote {} read event {} {:?} at step {} but no put_value of it precedes that", ri, f.lane, b, f.step),
+                        );
+                    }
+                }
+                "m" => {
+                    let Some(id) = id_of("m") else {
+                        add("as: map event published but the lane has no store id".into(), String::new());
+                        continue;
+                    };
+                    let ok = match parse_map_event(&b) {
+                        Some(MapEv::Update(k, v)) => calls.iter().any(|(s, inst, c)| {
+                            *inst == 1 && *s <= f.step && matches!(c, StoreCall::Update(i, kb, vb) if *i == id && kb.as_slice() == k.to_string().as_bytes() && vb.as_slice() == v.to_string().as_bytes())
+                        }),
+                        Some(MapEv::Remove(k)) => calls.iter().any(|(s, inst, c)| {
+                            *inst == 1 && *s <= f.step && (matches!(c, StoreCall::Remove(i, kb) if *i == id && kb.as_slice() == k.to_string().as_bytes()) || matches!(c, StoreCall::Clear(i) if *i == id))
+                        }),
+                        Some(MapEv::Clear) => calls.iter().any(|(s, inst, c)| *inst == 1 && *s <= f.step && matches!(c, StoreCall::Clear(i) if *i == id)),
+                        None => true,
+                    };
+                    if !ok {
+                        add(
+                            "as: map lane state published to a subscriber before it was handed to the store".into(),
+                            format!("remote {} read event m {:?} at step {} but no matching store call precedes that", ri, b, f.step),
+                        );
+                    }
+                }
+                _ => {}
+            }
+        }
+    }
+    // (2)-(4) restart
+    if obs.cfg.restart {
+        let start2 = obs.truth2.iter().find_map(|(_, t)| if let Truth::Start { v, w, t, vs, m, ms } = t { Some((*v, *w, *t, *vs, m.clone(), ms.clone())) } else { None });
+        match start2 {
+            None => {
+                if !obs.truth2.is_empty() || obs.result2.is_some() || obs.crashed_at.is_some() || obs.killed || obs.result.is_some() {
+                    add(
+                        "as: the restarted agent never reached on_start".into(),
+                        format!("second instance result {:?}", obs.result2),
+                    );
+                }
+            }
+            Some((v2, w2, t2, vs2, m2, ms2)) => {
+                let stored_val = |name: &str| -> i32 { id_of(name).and_then(|id| state.values.get(&id)).and_then(|b| std::str::from_utf8(b).ok().and_then(|s| s.trim().parse::<i32>().ok())).unwrap_or(0) };
+                let stored_map = |name: &str| -> Vec<(i32, i32)> {
+                    let mut v: Vec<(i32, i32)> = id_of(name)
+                        .and_then(|id| state.maps.get(&id))
+                        .map(|m| m.iter().filter_map(|(k, v)| Some((std::str::from_utf8(k).ok()?.trim().parse().ok()?, std::str::from_utf8(v).ok()?.trim().parse().ok()?))).collect())
+                        .unwrap_or_default();
+                    v.sort();
+                    v
+                };
+                for (name, got) in [("v", v2), ("w", w2), ("vs", vs2)] {
+                    let want = stored_val(name);
+                    if got != want {
+                        add(
+                            format!("as: restarted {} does not hold the last value handed to the store", if name == "vs" { "value store" } else { "value lane" }),
+                            format!("{} restarted with {} but the store holds {}", name, got, want),
+                        );
+                    }
+                }
+                for (name, got) in [("m", &m2), ("ms", &ms2)] {
+                    let want = stored_map(name);
+                    if *got != want {
+                        add(
+                            format!("as: restarted {} does not hold the entries implied by the operations handed to the store", if name == "ms" { "map store" } else { "map lane" }),
+                            format!("{} restarted with {:?} but the store holds {:?}", name, got, want),
+                        );
+                    }
+                }
+                if t2 != 0 {
+                    add("as: transient lane did not come back at its default".into(), format!("t restarted with {}", t2));
+                }
+                // never older than anything a subscriber already saw
+                for lane in ["v", "w"] {
+                    let hist = value_history(obs, lane, None);
+                    let restored = if lane == "v" { v2 } else { w2 };
+                    let pos_restored = hist.iter().rposition(|(_, y)| *y == restored);
+                    for (ri, r) in obs.remotes.iter().enumerate() {
+                        for f in r.frames.iter().filter(|f| f.lane == lane && f.kind == FrameKind::Event) {
+                            if let Ok(x) = body_str(f).parse::<i32>() {
+                                let pos_seen = hist.iter().position(|(_, y)| *y == x);
+                                if let (Some(ps), Some(pr)) = (pos_seen, pos_restored) {
+                                    if pr < ps {
+                                        add(
+                                            "as: restarted value lane is older than a value a subscriber already received".into(),
+                                            format!("remote {} saw {} on {} but the lane restarted with {}", ri, x, lane, restored),
+                                        );
+                                    }
+                                } else if pos_restored.is_none() {
+                                    add("as: restarted value lane holds a value it never held".into(), format!("{} restarted with {}", lane, restored));
+                                }
+                            }
+                        }
+                    }
+                }
+            }
+        }
+    }
+    out
+}
